@@ -21,7 +21,9 @@ import sys
 from rv import core, sched
 from rv.locks import wrap_all_locks
 from rv.vclock import VClock, patched
-from rv.faults import make_exception
+from rv.faults import enable_unprintable, make_exception
+
+enable_unprintable()      # "whatever the user code raises" includes exceptions that cannot be turned into text
 
 PID = "C08"
 LEVEL = "exploration"
